@@ -157,7 +157,7 @@ def check_one(chk, rep, repo, cls, eff):
                        "" if t == x else "a result is stored on a query node other than the one being predicted")
     run_kinds(rep, w)
     # (4) result order
-    rets = [e for e in w.events if e.kind == "return"]
+    rets = [e for e in w.events if e.kind == "return" and e.fn is w.entry]
     okr = False
     if len(rets) == 1:
         v = rets[0].value
